@@ -101,6 +101,72 @@ pub fn prod_roundtrip(ctx: &Ctx, k: &Keys, pt: &[u8], enc_io: &Io, dec_io: &Io, 
     }
 }
 
+/// Round trips through the real binary, via files and pipes, onto fresh and onto already
+/// existing (longer) output paths: the decrypted bytes must be exactly the original.
+fn cli_roundtrips(ctx: &Ctx) {
+    use crate::cli::{keyring_text, Cmd, Exit, Ident, Stdin, WorkDir};
+    let mut rng = Rng::fork(ctx.seed, "C01-cli");
+    let alice = Ident::new("alice", "apw", &mut rng);
+    let bob = Ident::new("bob", "bpw", &mut rng);
+    let lens = [0usize, 1, 65535, 65536, 65537, 150_000];
+    let lens: Vec<usize> = lens.iter().copied().chain((0..ctx.tier.pick(2, 12)).map(|_| rng.range(2, 300_000))).collect();
+    let seeds: Vec<u64> = lens.iter().map(|_| rng.next()).collect();
+    par_for(lens.len() * 3, crate::util::ncpu(), |j| {
+        let (li, mode) = (j / 3, j % 3);
+        let len = lens[li];
+        let mut r = Rng::new(seeds[li]);
+        let pt = r.bytes(len);
+        let wd = WorkDir::new("c01");
+        wd.write("kr.txt", keyring_text(&[(&alice, true), (&bob, true)]).as_bytes());
+        wd.write("plain.bin", &pt);
+        let stale = r.bytes(len + 70_000);
+        let (ct, dec): (Vec<u8>, Vec<u8>);
+        let mut stderr = String::new();
+        let what;
+        match mode {
+            0 => {
+                what = "files, fresh output paths";
+                let e = Cmd::new(&wd.path, &["encrypt", "plain.bin", "-t", "bob", "-f", "alice", "-o", "c.ktl", "-k", "kr.txt", "--env-pass"]).pass("apw").run();
+                let d = Cmd::new(&wd.path, &["decrypt", "c.ktl", "-t", "bob", "-o", "p.out", "-k", "kr.txt", "--env-pass"]).pass("bpw").run();
+                stderr = format!("{} | {}", e.stderr_s(), d.stderr_s());
+                ct = std::fs::read(wd.file("c.ktl")).unwrap_or_default();
+                dec = if e.exit == Exit::Code(0) && d.exit == Exit::Code(0) { std::fs::read(wd.file("p.out")).unwrap_or_default() } else { b"<command failed>".to_vec() };
+            }
+            1 => {
+                what = "files, output paths that already hold longer content";
+                wd.write("c.ktl", &stale);
+                wd.write("p.out", &stale);
+                let e = Cmd::new(&wd.path, &["encrypt", "plain.bin", "-t", "bob", "-f", "alice", "-o", "c.ktl", "-k", "kr.txt", "--env-pass"]).pass("apw").run();
+                let d = Cmd::new(&wd.path, &["decrypt", "c.ktl", "-t", "bob", "-o", "p.out", "-k", "kr.txt", "--env-pass"]).pass("bpw").run();
+                stderr = format!("{} | {}", e.stderr_s(), d.stderr_s());
+                ct = std::fs::read(wd.file("c.ktl")).unwrap_or_default();
+                dec = if e.exit == Exit::Code(0) && d.exit == Exit::Code(0) { std::fs::read(wd.file("p.out")).unwrap_or_default() } else { b"<command failed>".to_vec() };
+            }
+            _ => {
+                what = "pipes (stdin -> stdout), short first read";
+                let e = Cmd::new(&wd.path, &["encrypt", "-t", "bob", "-f", "alice", "-k", "kr.txt", "--env-pass"]).pass("apw").stdin(Stdin::Dribble(pt.clone(), vec![(len / 3).max(1), 0, 40_000, 1, 65_536, 3])).run();
+                let d = Cmd::new(&wd.path, &["decrypt", "-t", "bob", "-k", "kr.txt", "--env-pass"]).pass("bpw").stdin(Stdin::Dribble(e.stdout.clone(), vec![100, 0, 32, 16, 70_000])).run();
+                stderr = format!("{} | {}", e.stderr_s(), d.stderr_s());
+                ct = e.stdout.clone();
+                dec = if e.exit == Exit::Code(0) && d.exit == Exit::Code(0) { d.stdout.clone() } else { b"<command failed>".to_vec() };
+            }
+        }
+        ctx.eval();
+        let case = || json!({"len": len, "wiring": what, "stderr": stderr, "ciphertext_len": ct.len(), "decrypted_len": dec.len()});
+        let refok = matches!(refspec::decode_key_file(&ct, &bob.sk, &bob.pk), Ok(d) if d.body.complete() && d.body.plaintext() == pt && d.sender == alice.pk);
+        if dec != pt {
+            ctx.violation(&format!("C01:cli:round-trip-bytes-differ:{}", what.split(',').next().unwrap_or("").trim()), case());
+        } else if !refok {
+            ctx.violation("C01:cli:ciphertext-file-is-not-exactly-a-conforming-file", case());
+        } else if !stderr.contains("File from: alice") {
+            ctx.violation("C01:cli:sender-not-reported", case());
+        } else {
+            ctx.seen(&format!("cli round trip ok: {}", what));
+            ctx.distinct(&format!("cli|{}|{}", len, mode));
+        }
+    });
+}
+
 pub fn run(ctx: &Ctx) {
     ctx.rule(
         "small scope: every |P|<=L, chunk size c<=4, every composition of |P| into reads <=c, x write/ciphertext-read schedules \
@@ -183,6 +249,9 @@ pub fn run(ctx: &Ctx) {
         }
     });
     ctx.note("production_lengths", json!(lengths));
+    cli_roundtrips(ctx);
+    ctx.require("cli round trip ok: files, output paths that already hold longer content", 4);
+    ctx.require("cli round trip ok: pipes", 4);
     ctx.require("prod: chunks=", 50);
     ctx.require("small: chunks=", 500);
 }
